@@ -133,6 +133,10 @@ def queries(tier):
         for n in lens(3 if th else 2, 1):
             addp('Purl', ['pkg:%s/ns/' % ty, ('hole', 'h', n)], ['default', 'pt'])
     addp('Purl', ['pkg:', ('hole', 'h', 3), '/ns/n@1?k=v#s'], ['default', 'pt'])
+    # names / algorithm names of two non-ASCII letters: the lower-casing paths of every feature set
+    for ty in ('nuget', 'pypi'):
+        addp('Purl', ['pkg:%s/' % ty, ('hole', 'h', 4)], ['default', 'pt'])
+    addp('String', ['pkg:t/n?checksum=', ('hole', 'h', 4), ':'], ALL)
     for n in lens(4 if th else 2):
         for steps in ([], [('with_namespace', ('hole', 'a', 1)), ('with_version', ('hole', 'b', 1)), ('with_qualifier', ('hole', 'k', 1), ('hole', 'v', 1)), ('with_subpath', ('hole', 'c', 1))]):
             for T in ('String', 'CowB'):
